@@ -295,13 +295,14 @@ def make_overlay(ctx, pkg_dir, files, pkg_name=None, with_util=True, extra_repla
         if pkg_name is None:
             pkg_name = detect_pkg_name(os.path.join(REPO, pkg_dir))
         util = open(UTIL_GO).read().replace("package PKGNAME", "package " + pkg_name)
-        up = os.path.join(ctx.tmp, "zz_verif_util_%s_test.go" % pkg_dir.replace("/", "_"))
+        fd, up = tempfile.mkstemp(prefix="zz_verif_util_%s_" % pkg_dir.replace("/", "_"), suffix="_test.go", dir=ctx.tmp)
+        os.close(fd)
         with open(up, "w") as f:
             f.write(util)
         rep[os.path.join(REPO, pkg_dir, "zz_verif_util_test.go")] = up
     if extra_replace:
         rep.update(extra_replace)
-    op = os.path.join(ctx.tmp, "overlay-%d.json" % len(os.listdir(ctx.tmp)))
+    op = tempfile.mkstemp(prefix="overlay-", suffix=".json", dir=ctx.tmp)[1]
     with open(op, "w") as f:
         json.dump({"Replace": rep}, f)
     return op
@@ -564,7 +565,8 @@ def standard_check(ctx, spec):
     h = spec["harness"]
     n = ctx.n(h.get("n_quick", 300), h.get("n_thorough", 5000))
     hr = go_harness(ctx, h["pkg_dir"], h["run"], h["files"], n, env=h.get("env"), race=h.get("race", False),
-                    timeout=h.get("timeout", 900 if ctx.tier == "quick" else 3600), pkg_name=h.get("pkg_name"))
+                    timeout=h.get("timeout", 900 if ctx.tier == "quick" else 3600), pkg_name=h.get("pkg_name"),
+                    extra_replace=h.get("extra_replace"), tags=h.get("tags"))
     recs = hr["records"]
     cases = [r for r in recs if r.get("kind") == "case"]
     for r in recs:
